@@ -348,9 +348,16 @@ class Queue(Greenlet):
             self._add_queued(entry)
 
     def _remove(self, id):
-        self._pool_spawn('store', self.store.remove, id)
+        self._pool_spawn('store', self._remove_from_store, id)
         self.queued_ids.discard(id)
-        self.active_ids.discard(id)
+
+    def _remove_from_store(self, id):
+        # The id stays active until it is gone from storage, otherwise a stale
+        # load() or wait() entry could get the message attempted once more.
+        try:
+            self.store.remove(id)
+        finally:
+            self.active_ids.discard(id)
 
     def _bounce(self, envelope, reply):
         bounce = self.bounce_factory(envelope, reply)
